@@ -5,7 +5,7 @@ declare -A RUNS=( [C09]=4000 [C10]=12000 [C12]=4000 [C19]=3000 [C20]=4500 )
 OUT=seeded/RESULTS.md
 echo "| change | property | result (quick tier unless stated) |" > $OUT; echo "|---|---|---|" >> $OUT
 for d in seeded/*/; do
-  id=$(basename $d); props=$(/venv/bin/python -c "import json;print(json.load(open('$d/meta.json'))['breaks_property'])")
+  id=$(basename $d); if grep -q obsolete_on_head $d/meta.json; then echo "| $id | - | obsolete on /repo HEAD (see meta.json) |" >> $OUT; continue; fi; props=$(/venv/bin/python -c "import json;print(json.load(open('$d/meta.json'))['breaks_property'])")
   case "$props" in none*) plist="C09 C10 C12 C19 C20"; runs=1500;; *) plist=$(echo $props | tr ',' ' '); runs=0;; esac
   for p in $plist; do
     r=$runs; [ $r -eq 0 ] && r=${RUNS[$p]}
